@@ -11,6 +11,7 @@ CFG = {
     "theorems": [
         "Swat4.C13.facts_ok",
         "Swat4.C13.outcome_table",
+        "Swat4.C13.specWord_is_model",
         "Swat4.C13.retry_keeps_listing",
         "Swat4.C13.final_failure_marks",
         "Swat4.C13.success_marks",
@@ -39,10 +40,10 @@ CFG = {
         "Swat4.C13.C13_failure_after_concurrent_commit",
         "Swat4.C13.C13_success_after_concurrent_commit",
         # hmono discharged (reviewer W1): versions only grow under every repository call / use case / USys run
-        "Swat4.C13.exec_version_mono",
         "Swat4.C13.exec_keeps_row",
         "Swat4.C13.usecases_callbacks_stable",
-        "Swat4.C13.prog_version_mono",
+        "Swat4.C13.usecases_callbacks_stable_more",
+        "Swat4.C13.usecases_more_key_preserving",
         "Swat4.VerMono.exec_rowLe",
         "Swat4.VerMono.run_mono",
         "Swat4.VerMono.usys_run_mono",
@@ -60,7 +61,6 @@ CFG = {
         "Swat4.C13.others_usecase",
         "Swat4.C13Run.others_usys",
         # bridge to the system model the driver replays
-        "Swat4.C13Run.usys_retry_bridge",
         "Swat4.C13Run.usys_probe_retry_any",
         "Swat4.C13Run.usys_two_clients_retry",
         "Swat4.C13Run.usys_two_clients_retry_iff",
@@ -84,6 +84,9 @@ CFG = {
         {"name": "Swat4.C13.handleSuccess_fields", "why": "read-back of the definition (projections of `handleSuccess`, `rfl` each)"},
         {"name": "Swat4.C13.handleRetry_only_status", "why": "read-back of the definition (`rfl`)"},
         {"name": "Swat4.C13.handleFailure_only_status", "why": "read-back of the definition (`rfl`)"},
+        {"name": "Swat4.C13Run.usys_retry_bridge", "why": "glue: equates the system model's run with the Prog-level race history (`raceRun`) step by step; the content — the retry race under ANY concurrent call, in the system model — is usys_probe_retry_any (audited)"},
+        {"name": "Swat4.C13.exec_version_mono", "why": "wrapper: VerMono.exec_rowLe (audited) restated per address (`getRow a`) with the disjuncts swapped"},
+        {"name": "Swat4.C13.prog_version_mono", "why": "wrapper: VerMono.run_mono (audited) restated per address"},
     ],
     "shards": (1, 16),
     "nontrivial": _nontrivial,
@@ -104,14 +107,18 @@ CFG = {
         "for n = 0..20; theorem expFloor_matches_go) and, for n <= 5, to the real number e^n by expFloor_brackets_exp (Mathlib bounds on e); "
         "math.Exp is evaluated on the machine that runs the check (amd64/arm64 assembly or pure Go give the same truncated values for these arguments)",
         "versions are monotone while a record is not removed: formerly the hypothesis `hmono` of update_applies_to_latest and of the *_race theorems, now a theorem "
-        "(exec_version_mono: every repository call of the model whose conflict callback leaves address and version alone - usecases_callbacks_stable: all of them - "
-        "leaves a stored row unchanged or with a strictly larger version; probe_*_race_any / _at / usys_probe_retry_any have no version hypothesis); what remains an "
+        "(VerMono.exec_rowLe, restated per address as exec_version_mono [supporting]: every repository call of the model whose conflict callback leaves address and "
+        "version alone - usecases_callbacks_stable: all of them - leaves a stored row unchanged or with a strictly larger version). probe_*_race_any / usys_probe_retry_any "
+        "(ONE arbitrary concurrent call, Remove included) need no version hypothesis. The `_at` theorems (probe_retry_race_at, probe_success_race_at, "
+        "probe_failure_race_others) are NOT hypothesis-free: they assume `Others F` of the concurrent activity F - from every state, F keeps `Keyed` (rows under their own "
+        "keys) and leaves every row stored, unchanged or with a strictly larger version; this is discharged (others_call / others_run / others_usys) for single calls, whole "
+        "use cases and USys interleavings WITHOUT Remove, and for their compositions - an activity containing a Remove is outside these theorems; what remains an "
         "assumption is its scope: remove + re-add restarts the counter (ABA), outside the property's quantifier: there the model - and servers.go:143 "
         "`existing.Version > svr.Version`, which behaves the same - stores the transformation of the STALE copy over the fresh registration "
         "(aba_overwrites_fresh_registration, aba_witness); the multi-call theorems therefore quantify over activities without Remove (VerMono.ProgStable, Others)",
         "retry budgets above 20 are outside the model (expFloor returns 0 there; the driver reports such a case as unmodelled): expFloor_in_scope / expFloor_out_of_scope; "
         "the configured retry maxima are >= 0 (hypothesis of usecases_enqueue_within_budget)",
-        "the Prog-level race histories (raceRun / raceRunL) and the system model the driver replays (USys) agree: usys_retry_bridge (always, with Get and the clock read "
+        "the Prog-level race histories (raceRun / raceRunL) and the system model the driver replays (USys) agree: usys_retry_bridge [supporting glue; its content in the system model is usys_probe_retry_any] (always, with Get and the clock read "
         "at the same clock value) and usys_two_clients_retry_iff (with the history of probe_retry_race exactly when no tick separates the calls) for the retry "
         "branch; usys_two_clients_success (= raceRun ... 2 ..., any ticks; = the history of probe_success_race when no tick separates the calls) and "
         "usys_two_clients_failure (= the history of probe_failure_race, any ticks) for the other two; in these bridges the concurrent client performs ONE call",
@@ -125,7 +132,8 @@ CFG = {
         "the initial status word and initial queue are taken from the model's run of the init items",
     ],
     "manifest": {
-        "text": "Lean theorems: outcome_table (all 512 x 2 x 3 cases by kernel evaluation against a per-bit declarative spec), retry_keeps_listing, "
+        "text": "Lean theorems: outcome_table (all 512 x 2 x 3 cases by kernel evaluation against a per-bit declarative spec, Spec/ProbeOutcome.lean; specWord_is_model: the same as whole "
+                "words - specWord is what the driver's `table` oracle compares the real probers' word with, the model side of that verdict being UC.*Status), retry_keeps_listing, "
                 "update_applies_to_latest (Update(f stale, resolver f) stores f(latest) at version+1 whenever versions are monotone) and its three "
                 "instances for retry / final failure / success; run-level, as equations on the whole result state of the executed use case: "
                 "probe_retry_run / probe_failure_run / probe_success_run / probe_missing_run (sequential run) and probe_*_race (Get, one arbitrary "
@@ -137,11 +145,11 @@ CFG = {
                 "report_conflict_applies_to_latest, discover_conflict_refuses_when_marked / _marks_latest); aba_overwrites_fresh_registration: across "
                 "remove + re-add the stale copy overwrites the fresh registration (model and servers.go alike). Tied to probeserver.go and the probers by the "
                 "exhaustive table run on the real probers and by call-granularity interleavings of the real use case with one concurrent commit. "
-                "Round 6: the version premise `hmono` is now a theorem (exec_version_mono, for every repository call whose conflict callback leaves address and "
-                "version alone; usecases_callbacks_stable: every use case), the race theorems are restated without it for an arbitrary concurrent call "
+                "Round 6: the version premise `hmono` is now a theorem (VerMono.exec_rowLe / VerMono.run_mono; exec_version_mono and prog_version_mono are their per-address restatements, supporting; for every repository call whose conflict callback leaves address and "
+                "version alone; usecases_callbacks_stable: the eleven use-case programs listed by hand - report, renew, probe, addServer, refresh, revive, cleanInstances, listServers ProgStable; remove, cleanServers, cleanServers2 with stable callbacks but removing -; usecases_callbacks_stable_more: the two client programs that list left out, Heartbeat6.renewIP [dg6 keepalive] and the prober runner UC.proberRunWith / UC.proberRun [pop client], both ProgStable; usecases_more_key_preserving: hence KeyPreserving - the C09 hypothesis - for those two), the race theorems are restated without it for an arbitrary concurrent call "
                 "(probe_*_race_any, including Remove), for an arbitrary activity of the others at every placement between the probe's calls "
-                "(probe_retry_race_at k=1..3, probe_success_race_at k=1..2, probe_failure_race_others; Others = calls, whole use cases, USys interleavings without Remove), "
-                "and bridged to the system model the driver replays (usys_retry_bridge, usys_two_clients_*: equal to raceRun ... 2 ... always, to the raceRun ... 1 ... "
+                "(probe_retry_race_at k=1..3, probe_success_race_at k=1..2, probe_failure_race_others; hypothesis `Others F`: F keeps Keyed and every row unchanged-or-newer, discharged for calls, whole use cases and USys interleavings without Remove), "
+                "and bridged to the system model the driver replays (usys_probe_retry_any, usys_two_clients_* [usys_retry_bridge: supporting glue]: equal to raceRun ... 2 ... always, to the raceRun ... 1 ... "
                 "history of probe_retry_race iff no tick separates the calls); expFloor = floor(e^n) on the whole table n <= 20 and = 0 (unmodelled) beyond; "
                 "every queued probe has 0 <= retries <= max (queued_within_budget, USys invariant).",
         "level_note": "Trusted: Lean kernel (propext, Quot.sound, Classical.choice); atomicity of repository calls (C09/C11 theorems about the Redis-level model); "
